@@ -97,7 +97,7 @@ class C11Scenario(ChangeScenario):
         script = self.params['script']
         calls = [(t, p['retry']) for t, k, p in env.obs if k == 'call' and p['id'] == hid]
         kills = sum(1 for _, k, _ in env.obs if k == 'kill')
-        disturbed = bool(env.deviations)
+        disturbed = bool(env.deviations) or bool(self.params.get('downtime'))    # downtimes: the statement-level laws
         mode, retries, timeout, backoff = cfg['errors'], cfg['retries'], cfg['timeout'], cfg['backoff']
         if not calls:
             if not disturbed:
@@ -297,6 +297,21 @@ def run(tier: str, seed: int) -> CheckResult:
                 plain.append(C11Scenario(handlers=handlers, user=[(1.0, 'create', 'a'), (6.0, 'restart'), (t_edit, 'spec', 'a', 2)], horizon=50.0,
                                          cfg=cfg, script=script, carrier='change', subject='r1', variant='resume-superseded',
                                          settings={'persistence__consistency_timeout': 5.0}, delays=False, early_user=False, time_dev=False))
+    # "no attempt starts later than T after the first one ... also across operator restarts": a downtime the look-ahead cannot foresee
+    # pushes the next attempt behind the deadline - by a fraction of a second, by seconds, by more than a day
+    for timeout, first_delay, down_at, up_at in ((2.5, 'temp1', 1.5, 3.7), (5.0, 'temp2', 2.0, 9.0), (3600.0, 'temp60', 30.0, 1.0 + 86700.0),
+                                                 (2.5, 'temp1', 1.5, 3.2)):
+        for carrier_on, extra in (('create', {}),):
+            cfg = dict(errors=None, retries=None, timeout=timeout, backoff=None)
+            handlers = [dict(id='c1', on='create', script=[first_delay, 'ok'], timeout=timeout)]
+            plain.append(C11Scenario(handlers=handlers, user=[(1.0, 'create', 'a'), (down_at, 'stop'), (up_at, 'start')], horizon=up_at + 30.0,
+                                     cfg=cfg, script=[first_delay, 'ok'], carrier='change', subject='c1', variant='downtime', downtime=[down_at, up_at],
+                                     settings={'persistence__consistency_timeout': 5.0}, delays=False, early_user=False, time_dev=False))
+    # a backoff of exactly zero is a backoff, not "unset"
+    for carrier in ('change', 'daemon', 'timer'):
+        for script in (['arb', 'ok'], ['arb', 'arb', 'ok'], ['temp', 'arb', 'ok']):
+            for cfg in (dict(errors=None, retries=None, timeout=None, backoff=0.0), dict(errors=None, retries=3, timeout=None, backoff=0.0)):
+                plain.append(build(carrier, cfg, script, delays=False, early_user=False, time_dev=False))
     if tier == 'quick':
         groups = [('policy-product', plain, 0, 80.0), ('crash-points', crash, 1, 40.0)]
     else:
